@@ -97,3 +97,17 @@ Theorem C05_bucket_lands_under_all_its_scripts : forall keys k,
   exists z, find (fun z => intersects z k) (merge_sets keys) = Some z /\ incl k z.
 Proof. exact assignment_total_and_whole. Qed.
 Print Assumptions C05_bucket_lands_under_all_its_scripts.
+
+(* ---- which glyphs are marks for the kern writers: the user's GlyphClassDef, found in whichever GDEF block holds it ---- *)
+From U2F Require Import Fea.GdefTodo Fea.Tables Fea.TablesProofs.
+
+Theorem C05_user_mark_class_found_in_any_gdef_block : forall pre l,
+  (forall b, In b (gdef_bodies pre) -> first_classdef b = None) -> gdef_classes (pre ++ l) = gdef_classes l.
+Proof. exact gdef_classes_skips_blocks_without_classdef. Qed.
+Print Assumptions C05_user_mark_class_found_in_any_gdef_block.
+
+Example C05_classes_in_second_block :
+  gdef_classes [TOther; TBlock GDEF [TStmt GCaretByPos]; TBlock [104]%Z []; TBlock GDEF [TStmt GAttach; TClassDef 7]] = Some 7%Z
+  /\ find_table GDEF [TBlock [104]%Z []; TBlock GDEF [TClassDef 1]] = Some [TClassDef 1%Z].
+Proof. exact classes_in_second_block. Qed.
+Print Assumptions C05_classes_in_second_block.
